@@ -23,6 +23,15 @@ MUTANTS = [
      "normalize_bitmask: complement not masked by the fill"),
     ("C01", TM + "_bipartition.py", "        cm = (~bitmask) & fill_bitmask\n        if ((cm - 1) & cm) == 0:\n            return True\n        return False",
      "        return False", "is_trivial_bitmask: complement test dropped"),
+    ("C01", TM + "_tree.py", "                        leafset_bitmask |= child.edge.bipartition._leafset_bitmask",
+     "                        leafset_bitmask = child.edge.bipartition._leafset_bitmask", "encode loop: internal mask is the last child's, not the union"),
+    ("C01", TM + "_tree.py", "                    if taxon:\n                        leafset_bitmask = taxon_namespace.taxon_bitmask(taxon)",
+     "                    if taxon:\n                        leafset_bitmask = 1", "encode loop: every leaf gets bit 0"),
+    ("C01", TM + "_tree.py", "                    for child in child_nodes:\n                        leafset_bitmask |= child.edge.bipartition._leafset_bitmask",
+     "                    for child in child_nodes[1:]:\n                        leafset_bitmask |= child.edge.bipartition._leafset_bitmask", "encode loop: first child skipped"),
+    ("C01", TM + "_tree.py", "                edge.bipartition = _bipartition.Bipartition(\n                    compile_bipartition=False, is_mutable=True\n                )\n                edge.bipartition._leafset_bitmask = leafset_bitmask",
+     "                edge.bipartition = self.seed_node.edge.bipartition\n                edge.bipartition._leafset_bitmask = leafset_bitmask",
+     "encode loop: all edges share one Bipartition object"),
     ("C03", TM + "_node.py", "            node._parent_node = None\n            node.edge.tail_node = None\n            index = children.index(node)",
      "            node.edge.tail_node = None\n            index = children.index(node)", "remove_child: parent pointer of the removed node kept"),
     ("C03", TM + "_edge.py", "        old_tail_node.edge.length, old_head_node.edge.length = (\n            old_head_node.edge.length,\n            old_tail_node.edge_length,\n        )",
